@@ -457,10 +457,18 @@ def delThrough (root : Val) (par : PRef) (ni : Option Str) : PyM Val :=
       else .error .KeyError
   | some _ => .error .TypeError
 
-/-- the hidden-list part of `delete` (fix C03-e): an item `[0]` of a hidden list that was *found* is the single value
-itself; `found` is resolved again until the parent reported is a node of the structure -/
-def delPlace (fuel : Nat) (root : Val) (r : Res) : PyM Res :=
-  if isWrap r.parent && r.isFound then realPlace fuel root fuel r else .ok r
+/-- the hidden-list part of `delete` (fix C03-e).  An item `[0]` of a hidden list that was *found* is the single value
+itself.  Written as a step of its own (`tok` = `[0]`) it is passed over — `none`: the shorter path, which the loop looks at
+next, leads to the same value; attached to a name (`name[0]`) the text `found` is resolved once more to get the place
+where the value really is. -/
+def delPlace (fuel : Nat) (root : Val) (tok : Str) (r : Res) : PyM (Option Res) :=
+  if isWrap r.parent && r.isFound then
+    if (match splitNameIndex tok with | .ok (name, _) => name.isEmpty | .error _ => false) then .ok Option.none
+    else
+      match findD fuel root [] false true (tokenize r.found) (.at []) true slash with
+      | .error e => .error e
+      | .ok (_, r') => .ok (some r')
+  else .ok (some r)
 
 def isEmptyDict : Val → Bool
   | .dict _ [] => true
@@ -477,11 +485,12 @@ def deleteLoop (fuel : Nat) (toks : List Str) (recursively : Bool) : Val → Nat
     match findD fuel root [] false true (toks.take (k + 1)) (.at []) true slash with
     | .error e => (root, .error e)
     | .ok (root, r) =>
+      match delPlace fuel root (toks.getD k []) r with
+      | .error e => (root, .error e)
+      | .ok Option.none => deleteLoop fuel toks recursively root k first
+      | .ok (some r') =>
       if first || (recursively && isEmptyDict r.value) then
-        match delPlace fuel root r with
-        | .error e => (root, .error e)
-        | .ok r =>
-        match delThrough root r.parent r.nameIdx with
+        match delThrough root r'.parent r'.nameIdx with
         | .error e => (root, .error e)
         | .ok root => deleteLoop fuel toks recursively root k false
       else deleteLoop fuel toks recursively root k false
